@@ -103,3 +103,20 @@ Definition dbg_c01b (c : c01b_case) : result (list Z) * result (list Z) :=
    | Some p => pd <- design_of_pkg prims_ext p (cb_top c) ;; pterms <- traverse (pterm d) (cb_terms c) ;;
                labels pd (design_fuel pd) pterms
    end).
+
+(* ---- spec validation: lowering the design member-wise (Spec/C01BLower.v, with the injective naming b.m1.m2) and reading the
+   result with the core semantics Spec/Nets.v gives the same net labels as the path-based meaning; the hypotheses of the
+   lowering theorem (Props/C01B.v) hold for the design.  code 3 on any disagreement. ---- *)
+Require Import Hdl21.Spec.C01BLower.
+Fixpoint dot_join (l : list name) : name :=
+  match l with [] => "" | x :: r => sapp "." (sapp x (dot_join r)) end.
+Definition dot_name (b : name) (q : mpath) : name := sapp b (dot_join q).
+
+Definition chk_lower (c : c01b_case) : Z :=
+  let d := cb_design c in
+  let ld := lower dot_name d in
+  if negb (names_ok dot_name d && pairs_ok d && forallb (bnode_ok d) (cb_terms c)) then 3 else
+  match blabels d (bdesign_fuel d) (cb_terms c), labels ld (bdesign_fuel d) (map (phi dot_name) (cb_terms c)) with
+  | Ok a, Ok b => if zlist_eqb a b then 0 else 3
+  | _, _ => 3
+  end.
